@@ -364,7 +364,8 @@ def check(prop, tier, seed, t0, no_build=False):
     for rec in st["specfails"]:
         for k in known:
             f = matchers.get(k["matcher"])
-            if f is not None and f(rec):
+            # matchers read rec["info"] as a dict; history-dependent failures carry a text there and are never "known"
+            if f is not None and isinstance(rec.get("info") or {}, dict) and f(rec):
                 known_hits.setdefault(k["id"], (k, rec))
                 break
         else:
